@@ -21,6 +21,16 @@ _WIP = "check not built yet in this session (design in DESIGN.md section 6); not
 NOT_APPLICABLE = {("C%02d" % i): _WIP for i in range(1, 21)}
 
 PROPS = {
+    "C02": {
+        "engine": "c02", "monitors": ["mon"], "finding_checks": {"mongp": "unset-variable-inside-literal-becomes-null"},
+        "engine_timeout": {"quick": 900, "thorough": 7200},
+        "technique": "Coq proof (gqlgen's argument/input coercion agrees with the specification's on every validated value, by induction on depth with generic list/field-loop lemmas; no integer unmarshaler changes a number) + differential correspondence of received Go argument values on generated probe servers",
+        "level_text": "Theorems for every input schema, type, validated value and depth: same error path or a received value that shows the specification's coerced value (defaults for absent keys only, explicit null kept, omitted vs null exactly through Omittable, single value to list at every level, nested inputs, enums, ID from integers); every integer unmarshaler returns the mathematical value of its input or an error (UnmarshalUintID repaired; legacy refuted). Every check generates probe servers from the current templates under three input-related configurations, sends generated literals / variables / defaults / unset variables, abstracts the Go values the resolver received and compares them with the model of gqlgen (correspondence) and with the specification (monitor); plus all 8 integer unmarshalers x 110 dynamic values. Custom scalars and argument directives are not modelled; floats are abstract: partial.",
+        "level_note": "Trusted: Coq kernel + vm_compute; harness (abstraction of rendered Go values; the specification's reading of 'provided' is computed by the harness from the AST); gqlparser's validation, ArgumentMap and VariableValues.",
+        "trusted": ["gqlparser: validation, ArgumentMap (argument defaults), VariableValues (variable coercion) - modelled as the provider of the decoded values",
+                    "the abstraction from the driver's canonical rendering of received Go values to the model's aval"],
+        "assumptions": ["arguments of one probe field cover the input type shapes; random schemas are not generated for this property"],
+    },
     "C13": {
         "engine": "c13", "monitors": ["mon"],
         "finding_checks": {"monorphan": "deferred-group-delivered-for-discarded-object", "monorder": "nested-deferred-group-before-its-parent"},
